@@ -89,6 +89,7 @@ package patch
 //@   requires block: arr(originData) != textref && len(originData) < 0x100000 && 0 <= to && to < 0x2000000 && 0 <= funcSize && funcSize < 0x100000
 //@   assigns nothing
 //@   invariant loop 1 in_block: 0 <= pos && pos <= len(originData) && arr(originData) != textref
+//@   enter[C03] loop 1 starts_at_the_function_entry: pos == 0
 //@   step[C03] loop 1 advances_by_the_decoded_length: 0 <= at_head(pos) && at_head(pos) < len(originData) && pos == at_head(pos) + ins_on(originData, at_head(pos)).Len && pos > at_head(pos)
 //@   step[C03] loop 1 scanned_instruction_does_not_point_inside_overwritten_prefix: !points_inside_prefix(originData, at_head(pos), to)
 //@   step[C03] loop 1 scanned_instruction_does_not_branch_to_patched_entry: !points_at_entry(originData, at_head(pos))
